@@ -574,6 +574,7 @@ def _worker(args):
     used_patterns = set()
     oos: Dict[str, int] = {}
     oos_samples: List[Any] = []
+    fcount: Dict[str, int] = {}
     for unit in units:
         for case in unit_cases(unit, seed, tier):
             if not pairwise_compatible(case):
@@ -600,8 +601,12 @@ def _worker(args):
             if len(samples) < 2 and nt and len(case["inputs"]) >= 2:
                 samples.append(case)
             for clause, kc, detail in res:
-                fails.append({"case": case, "clause": clause, "keyclass": kc, "detail": detail})
-    return {"n": ncases, "digests": digests, "fails": fails, "samples": samples, "per_fn": per_fn,
+                f = {"case": case, "clause": clause, "keyclass": kc, "detail": detail}
+                k = fail_key(f)
+                fcount[k] = fcount.get(k, 0) + 1
+                if fcount[k] <= 2 * MAX_FAIL_PER_KEY:          # keep a few per key and chunk, count all
+                    fails.append(f)
+    return {"fcount": fcount, "n": ncases, "digests": digests, "fails": fails, "samples": samples, "per_fn": per_fn,
             "used": used_patterns, "oos": oos, "oos_samples": oos_samples}
 
 
@@ -781,10 +786,13 @@ def run_bounded(ctx: Ctx) -> Report:
     # failures
     fails.sort(key=lambda f: (fail_key(f), len(canon(f["case"])), canon(f["case"])))
     count: Dict[str, int] = {}
+    for r in results:
+        for k, v in r["fcount"].items(): count[k] = count.get(k, 0) + v
+    kept: Dict[str, int] = {}
     for f in fails:
         k = fail_key(f)
-        count[k] = count.get(k, 0) + 1
-        if count[k] > MAX_FAIL_PER_KEY:
+        kept[k] = kept.get(k, 0) + 1
+        if kept[k] > MAX_FAIL_PER_KEY:
             continue
         c = f["case"]
         rep.failures.append(Failure(
